@@ -39,6 +39,12 @@ pub fn corpus(tier_full: bool) -> Vec<Program> {
             out.push(p);
         }
     }
+    // rec expressions: directly in a resource, nested, shadowing, inside applied functions
+    for (i, p) in frags::f6_rec_programs().into_iter().enumerate() {
+        if i % 2 == 0 || tier_full {
+            out.push(p);
+        }
+    }
     // the C08 name-collision space
     let k1 = c08::Space::new(1, true);
     for i in 0..k1.count() {
